@@ -1,6 +1,7 @@
 import DesperModel.Disp
 import DesperModel.World
 import DesperModel.Spatial
+import DesperModel.Logic
 import DesperModel.Coro
 import DesperModel.Tree
 import DesperModel.Loop
@@ -24,6 +25,7 @@ def runModel (model : String) (lines : List String) : List String :=
   | "disp"   => Disp.runScenario lines
   | "world"  => World.runScenario lines
   | "spatial" => Spatial.runScenario lines
+  | "logic" => Logic.runScenario lines
   | "coro"   => Coro.runScenario lines
   | "tree"   => Tree.runScenario lines
   | "loop"   => Loop.runScenario lines
